@@ -36,6 +36,7 @@ type childSpec struct {
 	OutDir   string          `json:"outDir"`
 	WorldDir string          `json:"worldDir"`
 	Sweep    bool            `json:"sweep"` // evaluate every curve under several sensor states once booted (C11)
+	Env      []string        `json:"env"`   // extra environment of the child process (e.g. DISPLAY=:77)
 }
 
 type journalLine struct {
@@ -59,7 +60,12 @@ func TestDaemonChild(t *testing.T) {
 	}
 	sc := spec.Scenario
 	os.Setenv("VERIF_WORLD_DIR", spec.WorldDir)
-	os.Unsetenv("DISPLAY")
+	os.Unsetenv("DISPLAY") // the sandbox's own display, if any, is not part of the scenario
+	for _, kv := range spec.Env {
+		if k, v, ok := strings.Cut(kv, "="); ok {
+			os.Setenv(k, v)
+		}
+	}
 	// start the os/signal machinery outside the bubble: the daemon's own
 	// signal.Notify then only registers a handler
 	warm := make(chan os.Signal, 1)
